@@ -112,6 +112,7 @@ static double g_start;
 static char *g_progress;          /* MAP_SHARED page */
 #define PROGRESS_SIZE 16384
 static char g_case[PROGRESS_SIZE];
+static int g_silent;
 
 #define MAXCOUNTERS 256
 static struct { char *name; uint64_t v; int ismax; } g_cnt[MAXCOUNTERS];
@@ -221,6 +222,7 @@ void mc_outcome(const char *cls, const char *fmt, ...)
 void mc_violation(const char *key, const char *fmt, ...)
 {
   va_list ap; int i;
+  if (g_silent) return;
   MC.nviol_raw++;
   for (i = 0; i < MC.nviol; i++) if (!strcmp(g_viol[i].key, key)) break;
   if (i == MC.nviol) {
@@ -238,7 +240,13 @@ int mc_case(const char *fmt, ...)
   vsnprintf(g_case, sizeof(g_case), fmt, ap);
   va_end(ap);
   if (g_progress) { size_t n = strlen(g_case); memcpy(g_progress, g_case, n + 1); }
-  if (MC.only && strcmp(MC.only, g_case)) return 0;
+  g_silent = 0;
+  if (MC.only && strcmp(MC.only, g_case)) {
+    /* replay of a history: its proper prefixes are executed silently so that the state is reached */
+    size_t l = strlen(g_case);
+    if (!strncmp(MC.only, g_case, l) && !strncmp(MC.only + l, " ; ", 3)) { g_silent = 1; return 2; }
+    return 0;
+  }
   return 1;
 }
 const char *mc_case_text(void) { return g_case; }
